@@ -21,6 +21,24 @@ CLAIMED = {
             LEVEL_TEXT, 'Bounds: all doubles x <=3 tags x <=10 chars for the bucket functions; accumulation over enumerated base lists with 1-2 symbolic transactions; float rounding of sums outside. ' + COMMON_NOTE, 'DESIGN.md section 2 C06'),
     'C09': ('bounded symbolic execution (CrossHair+z3) of MerchantEngine.match(most_specific) with symbolic truth vector, priorities and specificity components vs a lexicographic ranking oracle; all permutations inside one path',
             LEVEL_TEXT, 'Bounds: <=3 rules (4 thorough); specificity components unbounded non-negative ints (stubbed calculate_specificity) or read from a 15-member expression family. ' + COMMON_NOTE, 'DESIGN.md section 2 C09'),
+    'C03': ('bounded symbolic execution (CrossHair+z3) of the evaluator\'s name/attribute/method/function resolution with SYMBOLIC identifier names on every receiver kind; node-type closure; identity snapshots for immutability; finite sweep of builtin/attribute names (exhaustion, reported separately)',
+            LEVEL_TEXT, 'Bounds: identifier names <=10 (13) ASCII chars; ~55 representative snippets (one per ast node class / classic payload). Arbitrary source strings cannot be symbolic (ast.parse is a C boundary): not claimed. ' + COMMON_NOTE, 'DESIGN.md section 2 C03'),
+    'C05': ('bounded symbolic execution (CrossHair+z3) of parse_generic_csv/parse_amount with contract stubs for csv.reader, float, strptime; symbolic cell counts, texts, amount-cell pieces, flags; oracle list from the property text',
+            LEVEL_TEXT, 'Bounds: 1-2 rows, <=5 columns, 4 layouts, cell texts <=1-3 chars. Stubs (csv reader, float, strptime, normalize_merchant) are listed in the evidence; CSV quoting and real number parsing are outside. ' + COMMON_NOTE, 'DESIGN.md section 2 C05'),
+    'C07': ('bounded symbolic execution (CrossHair+z3) of operation sequences (loads, classifications, evaluations) against a reference table computed in fresh interpreters; symbolic fixture indices cover the product histories x transactions',
+            LEVEL_TEXT, 'Bounds: sequences <=3 ops (4 thorough) from an enumerated family; description/memo/amount from small fixture sets selected by symbolic indices (the solver covers the product; it does not reason about text here). ' + COMMON_NOTE, 'DESIGN.md section 2 C07'),
+    'C08': ('bounded symbolic execution (CrossHair+z3) of engine/normalize_merchant/apply_transforms/classify_merchants on files containing one ill-typed or partial expression from a generated family, with symbolic operand values; oracle: the failing construct is inapplicable for that item',
+            LEVEL_TEXT, 'Bounds: 40 ill-typed match expressions, 20 ill-typed view filters, 4 positions; operands <=1-2 chars / ints. ' + COMMON_NOTE, 'DESIGN.md section 2 C08'),
+    'C10': ('bounded symbolic execution (CrossHair+z3) of analyze_transactions -> classify_by_sections -> compute_section_totals with symbolic exact-real payments and symbolic view thresholds/strings vs an oracle of the documented primitives; independence by re-running with views removed/rotated',
+            LEVEL_TEXT, 'Bounds: 2 merchants, 2-3 payments, fixed month layouts, 5 view files; cv only on concrete histories with symbolic threshold (square root of a symbolic number is not decidable here). ' + COMMON_NOTE, 'DESIGN.md section 2 C10'),
+    'C14': ('real CSV->.rules pipeline on a family of CSV files: constants preserved (direct comparison), regex matching equivalence on symbolic descriptions (CrossHair+z3), whole-file equivalence with symbolic regex truth vector, exact-real amount and date',
+            LEVEL_TEXT, 'Bounds: 12 CSV files, 13 patterns, description <=3 chars. Known finding listed in known_findings.json: relative date modifiers are dropped. ' + COMMON_NOTE, 'DESIGN.md section 2 C14'),
+    'C17': ('bounded symbolic execution (CrossHair+z3) of MerchantEngine.parse / parse_sections over the product of layout-edit parameters and of single-point corruptions at symbolic positions; direct runs for load errors being reported',
+            LEVEL_TEXT, 'Bounds: 3 merchants + 2 views base files; edit parameters as listed in the evidence. The solver covers the product of edit parameters; it does not reason about file text. ' + COMMON_NOTE, 'DESIGN.md section 2 C17'),
+    'C18': ('bounded symbolic execution (CrossHair+z3) of parse_format_string on arrangements with symbolic spelling; inspect round trip through the real auto_detect_csv_format and the suggestion block extracted by AST from cmd_inspect',
+            LEVEL_TEXT, 'Bounds: width <=4 (5 thorough), ~45 arrangements (quick), 10 header sets with symbolic affixes. csv reader stubbed. ' + COMMON_NOTE, 'DESIGN.md section 2 C18'),
+    'C19': ('bounded-exhaustive symbolic execution (CrossHair+z3) of suggest_pattern/suggest_merchants_rule -> parse_merchants -> match over a small alphabet and structured skeletons (each path holds one concrete description: the text reaches ast.parse / re.compile)',
+            LEVEL_TEXT, 'Bounds: free descriptions <=2 (3 thorough) chars over a 10-character alphabet; 13 skeletons with words <=1 (2) chars. ' + COMMON_NOTE, 'DESIGN.md section 2 C19'),
     'C13': ('translation validation: Python AST and JS ESTree (acorn) of the classification functions translated to z3 (Float64, bounded ASCII tag lists) on every run; one equivalence query per output; cross-checked with z3 4.8.12 and cvc5',
             'Equivalence of the two programs for every double and every tag list within the bounds (unsat of the difference query); vacuity guard per bucket; models replayed on the real Python function and the real JS under node.',
             'Bounds: null or <=3 tags (4 thorough) of <=10 (12) ASCII chars. Trusted: engine/smt/symexec.py (validated against concrete runs of both real programs on every run), acorn, z3. If the source leaves the translator subset the check reports a harness error unless a fixed differential grid finds a replayable disagreement.', 'DESIGN.md section 2 C13'),
